@@ -251,9 +251,10 @@ func c15ParseNum(s string) (c15Val, bool) {
 		}
 		return nil, false
 	}
-	// anything else that still starts like a number may be one of the notations not modelled
-	c := s[0]
-	if c >= '0' && c <= '9' || ((c == '-' || c == '+') && len(s) > 1 && s[1] >= '0' && s[1] <= '9') {
+	// the notations not modelled: 0x / 0o / 0b prefixes and digit-separating underscores
+	t := strings.ToLower(strings.TrimLeft(s, "+-"))
+	if strings.HasPrefix(t, "0x") || strings.HasPrefix(t, "0o") || strings.HasPrefix(t, "0b") ||
+		(strings.Contains(t, "_") && t[0] >= '0' && t[0] <= '9') {
 		c15Unmod("number notation not modelled: " + s)
 	}
 	return nil, false
@@ -282,6 +283,15 @@ func c15Rat(n c15Val) *big.Rat {
 	panic("c15Rat of inexact")
 }
 
+// c15FloatLoose converts without refusing large integers (nearest float64).
+func c15FloatLoose(n c15Val) float64 {
+	if bi, ok := n.(*big.Int); ok {
+		f, _ := new(big.Float).SetInt(bi).Float64()
+		return f
+	}
+	return c15Float(n)
+}
+
 func c15Float(n c15Val) float64 {
 	switch n := n.(type) {
 	case float64:
@@ -307,16 +317,47 @@ func c15NumCmp(a, b c15Val) (int, bool) {
 		return c15Rat(a).Cmp(c15Rat(b)), true
 	}
 	if c15IsExact(a) != c15IsExact(b) {
-		// exact vs inexact: only modelled where float64 holds the exact value
-		ex := a
-		if c15IsExact(b) {
-			ex = b
+		// exact vs inexact: "numerically" is taken mathematically; where converting
+		// the exact number to float64 first would change the answer the case is
+		// the known finding of property C09 and is not judged here
+		fa, fb := c15FloatLoose(a), c15FloatLoose(b)
+		if math.IsNaN(fa) || math.IsNaN(fb) {
+			return 0, false
 		}
-		r := c15Rat(ex)
-		f, exact := r.Float64()
-		if !exact || math.Abs(f) > 1<<52 {
-			c15Unmod("comparison of an exact number not representable as float with an inexact one (C09)")
+		viaFloat := 0
+		switch {
+		case fa < fb:
+			viaFloat = -1
+		case fa > fb:
+			viaFloat = 1
 		}
+		exactOf := func(n c15Val, f float64) (*big.Rat, int) {
+			if c15IsExact(n) {
+				return c15Rat(n), 0
+			}
+			if math.IsInf(f, 0) {
+				if f > 0 {
+					return nil, 1
+				}
+				return nil, -1
+			}
+			return new(big.Rat).SetFloat64(f), 0
+		}
+		ra, ia := exactOf(a, fa)
+		rb, ib := exactOf(b, fb)
+		math_ := 0
+		switch {
+		case ia != 0:
+			math_ = ia
+		case ib != 0:
+			math_ = -ib
+		default:
+			math_ = ra.Cmp(rb)
+		}
+		if math_ != viaFloat {
+			c15Unmod("comparison of an exact with an inexact number that differs when made through float64 (C09)")
+		}
+		return math_, true
 	}
 	x, y := c15Float(a), c15Float(b)
 	if math.IsNaN(x) || math.IsNaN(y) {
